@@ -45,12 +45,17 @@ VOCABS = [
 ]
 
 COMMIT_ENDS = ("nomerge", "default", "optimize", "with", "ixapi", "ixoptimize")
-ABORT_ENDS = ("cancel", "raise")
+ABORT_ENDS = ("cancel", "raise", "raiseb")
 WRITE_KINDS = ("add", "upd")
 
 
 class Boom(Exception):
     """The exception raised on purpose inside a ``with ix.writer()`` block."""
+
+
+class BoomBase(BaseException):
+    """Leaves a with-block the way KeyboardInterrupt / SystemExit /
+    GeneratorExit do: an exception that is not an ``Exception``."""
 
 
 class OpFailed(Exception):
@@ -592,13 +597,15 @@ def run_txn(W, txn, pre, checks=True, lenient=False):
         except Exception:
             held = None
     try:
-        if end in ("raise", "with"):
+        if end in ("raise", "raiseb", "with"):
             try:
                 with ix.writer(**wkw) as w:
                     do_ops(w)
                     if end == "raise":
                         raise Boom()
-            except Boom:
+                    if end == "raiseb":
+                        raise BoomBase()
+            except (Boom, BoomBase):
                 pass
         elif end == "ixapi":
             if len(ops) != 1 or ops[0][0] not in ("dkey", "dk2", "dtxt", "dq"):
@@ -962,7 +969,7 @@ def _mkind(got, want):
 # alphabets
 
 E5 = ["nomerge", "default", "optimize", "cancel", "raise"]
-E6 = E5 + ["with"]
+E6 = E5 + ["with", "raiseb"]
 E3 = ["nomerge", "optimize", "cancel"]
 
 
@@ -1209,7 +1216,7 @@ def shrink(cd, hist, api, kind, budget=120):
                     h, prob = r
                     changed = True
                     break
-            if h[i]["end"] == "raise":
+            if h[i]["end"] in ("raise", "raiseb"):
                 t2 = {"ops": h[i]["ops"], "end": "cancel"}
                 r = fails(h[:i] + [t2] + h[i + 1:])
                 if r:
@@ -1530,7 +1537,7 @@ def root5_two():
 
 
 E2 = ["nomerge", "optimize"]
-E4S = ["nomerge", "optimize", "cancel", "raise"]
+E4S = ["nomerge", "optimize", "cancel", "raise", "raiseb"]
 
 
 def plans(tier, seed):
